@@ -96,6 +96,8 @@ def body_using(rng, objs, extra, enums, allow_allof=True):
     r = rng.random()
     if r < 0.2:
         return t
+    if r < 0.27:
+        return '{ // root note %d\n  "rn": %d\n}' % (rng.randint(0, 9), rng.randint(0, 9))
     if r < 0.35:
         return '{"q": %s}' % t
     if r < 0.5 and allow_allof:
